@@ -266,17 +266,22 @@ where
     Scheduler::with_execution(f)
 }
 
-pub fn thread_done() {
+/// Runs the destructors of the current thread's thread-locals.
+pub(crate) fn drop_locals() {
     let locals = execution(|execution| {
         let thread = execution.threads.active_id();
 
-        trace!(?thread, "thread_done: drop locals");
+        trace!(?thread, "drop locals");
 
         execution.threads.active_mut().drop_locals()
     });
 
     // Drop outside of the execution context
     drop(locals);
+}
+
+pub fn thread_done() {
+    drop_locals();
 
     execution(|execution| {
         let thread = execution.threads.active_id();
